@@ -26,7 +26,7 @@ func init() {
 		Impl:       impl,
 		Check:      check,
 		NonTrivial: nonTrivial,
-		Rule: "one trie (pattern sets over {a,b,c,é,你,😀} biased to a long pattern that contains several disjoint short ones, touching / nested / chained occurrences; or 12–40 short patterns; or byte garbage) + 3–8 mask/replace calls; " +
+		Rule: "one trie (pattern sets over {a,b,c,é,你,😀} biased to a long pattern that contains several disjoint short ones, touching / nested / chained occurrences; or 12–40 short patterns; or byte garbage) + 3–8 mask/replace calls; 9 % histories (Insert…, Build, calls, then 1–3 rounds of insert… / build / dump / calls on the same trie) and 4 ‰ large cases (texts up to 1030 runes, up to 130 patterns, wide nodes, long patterns; larger in thorough and on anchor drift); " +
 			"non-trivial = at least one call whose text holds two occurrences that overlap (naive scan); distinct by hash of the case lines",
 		Classify: classify,
 		Facts:    facts,
@@ -54,6 +54,15 @@ const (
 )
 
 func stepOp(t *algz.Trie, tk []string) string {
+	if o, ok := c05.StepMut(t, tk); ok {
+		return o
+	}
+	if len(tk) == 1 && tk[0] == "dump" {
+		if !c05.DumpAvailable() {
+			return "dump-unavailable"
+		}
+		return c05.DumpTrie(t)
+	}
 	if len(tk) != 3 {
 		return "bad-op"
 	}
@@ -90,7 +99,13 @@ func impl(c core.Case) []string {
 			return o
 		},
 		func(tk []string) string {
-			if cyc != "" {
+			if o, ok := c05.StepMut(&t, tk); ok {
+				if len(tk) == 1 && o == "ok" {
+					cyc = c05.FailCycle(&t) // after every build
+				}
+				return o
+			}
+			if cyc != "" && !(len(tk) == 1 && tk[0] == "dump") {
 				// `find` would never return on a cyclic fail chain (and exhaust the memory)
 				return c05.CycleWord + cyc
 			}
@@ -246,11 +261,11 @@ func checkOp(ps *c05.PatSet, tk []string, out string) (string, string) {
 }
 
 func check(c core.Case, out []string) *core.Failure {
-	all, ok := c05.HeaderPatterns(c.Lines[0])
+	phases, ok := c05.Phases(c)
 	if !ok {
 		return &core.Failure{Key: "bad-output", Desc: "bad header"}
 	}
-	ps := c05.NewPatSet(all)
+	all, ps := phases[0].All, phases[0].PS
 	if out[0] != "ok" {
 		key := "panic"
 		if out[0] != "panic" {
@@ -268,6 +283,27 @@ func check(c core.Case, out []string) *core.Failure {
 			return &core.Failure{Key: "fail-cycle", Desc: fmt.Sprintf("after BuildFailureLinks of %q the fail chain of node %q never reaches the root (cycle): find does not terminate on a text reaching it; op %d %q was not run", all, strings.TrimPrefix(out[i], c05.CycleWord), i, c.Lines[i])}
 		}
 		tk := core.Toks(c.Lines[i])
+		ph := phases[i]
+		if ph.Mut {
+			if out[i] != "ok" {
+				key := "panic"
+				if out[i] != "panic" {
+					key = "bad-output"
+				}
+				return &core.Failure{Key: key, Desc: fmt.Sprintf("op %d %q (round %d, patterns so far %q) answered %q", i, c.Lines[i], ph.Round, ph.All, out[i])}
+			}
+			continue
+		}
+		if ph.Dirty {
+			continue // patterns inserted since the last build: outside the property
+		}
+		all, ps = ph.All, ph.PS
+		if len(tk) == 1 && tk[0] == "dump" {
+			if key, desc := c05.CheckDump(all, out[i]); key != "" {
+				return &core.Failure{Key: key, Desc: fmt.Sprintf("op %d %q: %s", i, c.Lines[i], desc)}
+			}
+			continue
+		}
 		if len(tk) != 3 {
 			return &core.Failure{Key: "bad-output", Desc: "bad op line " + c.Lines[i]}
 		}
@@ -294,11 +330,16 @@ func nonTrivial(c core.Case, out []string) bool {
 		return false
 	}
 	ps := c05.NewPatSet(all)
+	phases, ok := c05.Phases(c)
+	if !ok {
+		return false
+	}
 	for i := 1; i < len(c.Lines); i++ {
 		tk := core.Toks(c.Lines[i])
-		if len(tk) != 3 {
+		if len(tk) != 3 || phases[i].Mut || phases[i].Dirty {
 			continue
 		}
+		ps = phases[i].PS
 		text, _ := c05.Unhex(tk[1])
 		if c05.Shape(ps.Occurrences(text)).Inter {
 			return true
@@ -335,8 +376,29 @@ func classify(c core.Case, out []string) []string {
 	if out[0] == "panic" {
 		ls = append(ls, "panic")
 	}
+	phases, ok := c05.Phases(c)
+	if !ok {
+		return ls
+	}
+	if last := phases[len(phases)-1]; last.Round > 0 {
+		ls = append(ls, fmt.Sprintf("history:builds=%d", last.Round+1))
+		if last.NewInsideOld {
+			ls = append(ls, "history:new-pattern-inside-old-node")
+		}
+	}
 	for i := 1; i < len(c.Lines); i++ {
 		tk := core.Toks(c.Lines[i])
+		if phases[i].Mut || phases[i].Dirty {
+			continue
+		}
+		ps = phases[i].PS
+		if phases[i].Round > 0 && out[i] != "dead" {
+			ls = append(ls, "history:op-after-rebuild")
+		}
+		if len(tk) == 1 && tk[0] == "dump" {
+			ls = append(ls, "dump")
+			continue
+		}
 		if len(tk) != 3 || out[i] == "dead" {
 			continue
 		}
